@@ -98,7 +98,8 @@ Record chain_report := {
   cr_proj : option mismatch;          (* model vs node on the property's projection *)
   cr_nonneg : bool;
   cr_applied : bool;
-  cr_rates_immutable : bool
+  cr_rates_immutable : bool;
+  cr_history_replays : bool           (* on the last recorded dump *)
 }.
 Definition report (tags : list Z) (c : cfg) (bs : list block) (ex : list obs) : chain_report :=
   let r := run_chain2 (keep_tags tags) c genesis empty_cache bs ex None in
@@ -106,4 +107,8 @@ Definition report (tags : list Z) (c : cfg) (bs : list block) (ex : list obs) : 
      cr_proj := snd r;
      cr_nonneg := impl_nonneg ex;
      cr_applied := impl_all_applied ex;
-     cr_rates_immutable := impl_rates_immutable (recorded ex) |}.
+     cr_rates_immutable := impl_rates_immutable (recorded ex);
+     cr_history_replays := match rev (recorded ex) with
+                           | [] => true
+                           | d :: _ => impl_history_replays (c_V202EnhanceActivation c) [GlobalBurnAddress; GlobalOldBurnAddress; GlobalMintAddress] d
+                           end |}.
